@@ -67,7 +67,8 @@ def definition_history(case):
             eta = min(u, max(eta, m))
             T *= (x * eta / m + (u - x) * (u - eta) / (u - m)) / u
         else:
-            lam = C.frac(o["aux"][j - 1])
+            # the fixed bet is the configured constant; aGRAPA's bets are taken from the implementation (C13 bounds them)
+            lam = cfg["p"]["lam"] if k == "bet_fixed" else C.frac(o["aux"][j - 1])
             T *= 1 + lam * (x - m)
         if inband or abs(T) < 1e-12:
             exp.append(None)
